@@ -22,6 +22,7 @@ type Val struct {
 	Const   constant.Value
 	Name    string       // for a named constant / referenced object: pkg.Name
 	Obj     types.Object // for ref/func
+	Var     types.Object // the package-level variable this value was read from, if any
 	Type    types.Type
 	Ints    []int
 	Fn      string // call: qualified callee
@@ -365,6 +366,7 @@ func (ev *evaluator) object(o types.Object, pos token.Pos) *Val {
 			v := ev.expr(site.pkg, site.spec.Values[site.idx])
 			cp := *v
 			cp.Name = objName(ev.c, o)
+			cp.Var = o
 			if cp.Obj == nil {
 				cp.Obj = o
 			}
